@@ -362,12 +362,29 @@ fn drive_strict(out: &mut impl Write, r: &mut Rng, budget: usize, props: &Value,
                 ("strict.layer", json!({"f": c}))
             }
         } else if choice < 98 {
+            // functors on a fresh diagram with up to 4 hyperedges (any number of operations, not only powers of two)
+            let f = if r.coin(1, 2) { rand_diagram(r, 3, 4, None) } else { f };
             let (n, e) = size_of(&f);
             if n > 6 || e > 4 {
                 continue;
             }
             let ft = functor_for(r, &f);
-            ("functor.map_arrow", json!({"F": ft, "f": f}))
+            match r.below(4) {
+                0 => ("functor.map_arrow", json!({"F": ft, "f": f})),
+                1 => {
+                    // the same functor through the lax trait (DynFunctor adapter); lax argument = from_strict
+                    let lf = lax_out(&open_hypergraphs::lax::OpenHypergraph::from_strict(crate::strict_ops::vec::oh(&f)));
+                    ("laxf.dyn_map_arrow", json!({"F": ft, "f": lf}))
+                }
+                2 => {
+                    let lf = lax_out(&open_hypergraphs::lax::OpenHypergraph::from_strict(crate::strict_ops::vec::oh(&f)));
+                    ("laxf.identity", json!({"f": lf}))
+                }
+                _ => {
+                    let lf = lax_out(&open_hypergraphs::lax::OpenHypergraph::from_strict(crate::strict_ops::vec::oh(&f)));
+                    ("laxf.map_arrow_witness", json!({"F": ft, "f": lf}))
+                }
+            }
         } else if choice < 99 {
             ("arrow.is_convex_subgraph", rand_inclusion(r))
         } else {
